@@ -20,6 +20,18 @@ META = {
         "text": "Bounded symbolic model checking of record -> prune -> replay on the real streams, repeat/find/rejection loops and generators: for every recording of up to 10..16 symbolic words (any number of rejected attempts and forced stops inside the bound) the pruned recording replays to the same values, consumes every word and re-records to itself. Seed determinism is covered by C07's two-run harness.",
         "note": _ENGINE_NOTE,
     },
+    "C06": {
+        "text": "Bounded symbolic model checking of the real saveFailFile/loadFailFile/checkTB/doCheck/checkFailFile over an in-memory file system: the save/load round trip is exact for symbolic seed and words and for output lines of every length class around the 64 KiB scanner limit; over the two-run history fail -> rerun exactly one discoverable file is left, it encodes the final counterexample, and the next Check replays it before any random case and fails 'after 0 tests' with the same draw. File contents and names are case-split representatives (strings are concrete in the executor).",
+        "note": _ENGINE_NOTE + " File-system model instead of package os.",
+    },
+    "C16": {
+        "text": "Symbolic crash-point model checking of the real saveFailFile: the crash index is a case-split variable over every file-system step and every write is additionally interrupted with 4 prefix splits; in each resulting file system every file matching any test's discovery pattern equals the uninterrupted save and partial data is visible only under hidden temporary names in the same directory.",
+        "note": _ENGINE_NOTE + " File-system model instead of package os; a kill runs no deferred calls.",
+    },
+    "C17": {
+        "text": "Bounded symbolic model checking of loadFailFile/checkFailFile/doCheck on 15 shapes of unusable fail files: no panic, no failed test, and (2-run self-composition against an empty directory, symbolic seed) identical verdict tuple and identical random test cases. Arbitrary byte contents are outside the claim (case-split shapes only).",
+        "note": _ENGINE_NOTE + " File-system model instead of package os.",
+    },
     "C07": {
         "text": "Bounded symbolic model checking of the real findBug/doCheck/checkTB with a symbolic 64-bit seed: the reported seed equals the failing case's seed, regenerates its draws, makes the first case of a re-run fail 'after 0 tests', is the one printed, and two runs from one seed are identical invocation by invocation. Bounded in N (2/3 test cases).",
         "note": _ENGINE_NOTE,
